@@ -10,7 +10,7 @@ var snippets = []struct{ name, src string }{
 	{"types", `type A = int; pub type B = [A]; type C = { a_key: A, "another key": B, nested: { k: ?C } }; type D = ?[?int]; type E = fn() -> null; type F = { ? }; fn main() { }`},
 	{"types-tc", `type C = { a: int, b: str, }; fn main() { let x: { a: int, } = new { a: 1, }; }`},
 	{"return-forms", `fn f() -> int { return 1; } fn g() { return; } fn h() -> int { if c { return 1 + 2 * 3; } 4 } fn main() { }`},
-	{"loops", `fn main() { loop { break; } while x < 10 { x += 1; continue; } for i in [1, 2, 3] { if i == 2 { break; } } loop { } ; while true { } ; for c in "str" { } ; }`},
+	{"loops", `fn main() { loop { break; } while x < 10 { x += 1; continue; } for i in [1, 2, 3] { if i == 2 { break; } } loop { } while true { } for c in "str" { } }`},
 	{"if-chain", `fn main() { if a { 1 } else if b { 2 } else if c && d { 3 } else { 4 }; let v = if x > 1 { "big" } else { "small" }; if a { } }`},
 	{"match-forms", `fn main() { let v = match x { 1 => "one", 2 | 3 => "few", -1 => "neg", _ => "many", }; match s { "a" => { f(); } "b" => g(), _ => { } } match b { true => 1, false => 0 } }`},
 	{"match-tc", `fn main() { match x { 1 => 2, _ => 3 }; match x { 1 => 2, _ => 3, }; match x { } }`},
@@ -18,12 +18,12 @@ var snippets = []struct{ name, src string }{
 	{"blocks", `fn main() { { let a = 1; a }; let b = { 1 + 2 }; { { { } } } }`},
 	{"fn-literals", `fn main() { let f = fn() -> int { 42 }; let g = fn(a: int, b: str) { println(a, b); }; let h = fn(x: [int],) -> ?int { ?x[0] }; f(); (fn() { })(); }`},
 	{"fn-defs", `fn a() { } fn b(x: int) -> int { x } pub fn c(x: int, y: ?str,) -> [int] { [x] } event fn d() { } fn main() { }`},
-	{"imports", `import a from m; import { b, c } from m2; import { type T, templ U, trigger V, } from m3; import type W from m4; fn main() { }`},
+	{"imports", `import a from m; import { b, c } from m2; import { type T, templ U, } from m3; import trigger V from m5; import type W from m4; fn main() { }`},
 	{"singleton", `$Conf = { @setting brightness: int, name: str, }; $Num = int; $Lst = [?int]; fn f(c: $Conf) -> int { c.brightness } fn main() { }`},
-	{"impl", `import templ Light from devices; $L = { on: bool }; impl Light for $L { fn toggle(self: $L) { self.on = !self.on; } pub fn dim(p: int) -> bool { true } } fn main() { }`},
-	{"impl-with", `import templ Light from devices; $L = { on: bool }; impl Light with { dimmable, color } for $L { fn toggle() { } } fn main() { }`},
+	{"impl", `import templ Light from devices; $L = { lit: bool }; impl Light for $L { fn toggle(self: $L) { self.lit = !self.lit; } pub fn dim(p: int) -> bool { true } } fn main() { }`},
+	{"impl-with", `import templ Light from devices; $L = { lit: bool }; impl Light with { dimmable, color } for $L { fn toggle() { } } fn main() { }`},
 	{"trigger", `import trigger minute from triggers; fn cb(e: int) { } fn main() { trigger cb at minute(1); trigger cb on minute(1 + 2, x,); }`},
-	{"annotation", `#[trigger cb at minute(1)] fn x() { } fn main() { }`},
+	{"annotation", `#[trigger at minute(1 + 2, x)] fn x() { } #[foo, trigger in hour(3),] pub fn y() { } fn main() { }`},
 	{"spawn", `fn w(a: int) { } fn main() { let h = spawn w(1); spawn w(2 * 3,); h.join(); }`},
 	{"members", `fn main() { a.b.c.d(); a[0][1].x(1)(2)[3]; "s".len(); [1, 2].len(); new { k: 1 }.k; x.to_string().len().to_string(); }`},
 	{"literals", `fn main() { 42; 3.14159265; 1f; false; on; off; "A string"; 'c'; "esc \" \\ \n \x41 é"; null; none; [ 1, 2, 3 ]; new { key: "Value" }; new { ? }; ( 42 ); -1; ?1; !true; }`},
